@@ -47,7 +47,7 @@ def gen_sig(rng):
         dflt = (rng.random() < .35) or (seen_default and k in ("po", "pk"))
         if k in ("po", "pk") and dflt:
             seen_default = True
-        ps.append([nm, k, bool(dflt), rng.choice(["arr", "arr", "int", "none"])])
+        ps.append([nm, k, bool(dflt), rng.choice(["arr", "arr", "int", "none", "cls"])])
     out = [p for p in ps if p[1] in ("po", "pk")]
     if has_vp:
         out.append(["va", "vp", False, rng.choice(["arr", "none"])])
@@ -64,6 +64,8 @@ def make_calls(rng, ps):
             return ["arr", [4]] if good else ["arr", [4, 4]]
         if p[3] == "int":
             return ["int", 3] if good else ["str", "s"]
+        if p[3] == "cls":
+            return ["tok"] if good else ["tok_other"]
         return ["str", "free"]
     calls = []
     for style in ("pos", "kw"):
@@ -97,7 +99,7 @@ def make_calls(rng, ps):
     if all((not q[2]) or q[1] in ("ko",) or all(r[2] or r[1] not in ("po", "pk") for r in ps[ps.index(q):]) for q in ps):
         calls.append({"args": args, "kwargs": kwargs, "welltyped": True, "binds": True})
     # ill-typed: first annotated parameter gets a bad value
-    bad = next((p for p in ps if p[3] in ("arr", "int") and p[1] in ("po", "pk", "ko")), None)
+    bad = next((p for p in ps if p[3] in ("arr", "int", "cls") and p[1] in ("po", "pk", "ko")), None)
     if bad is not None:
         c = json.loads(json.dumps(calls[0]))
         idx = [p for p in ps if p[1] in ("po", "pk")].index(bad) if bad[1] in ("po", "pk") else None
@@ -142,7 +144,7 @@ def main():
     cases.append({"params": [["x", "pk", False, "arr"]], "fname": "co2", "callable": "async", "descriptor": "function", "checker": "typeguard", "ret_annot": True, "calls": make_calls(R.rng, [["x", "pk", False, "arr"]])})
     for _ in range(n):
         ps = gen_sig(R.rng)
-        kind = R.rng.choice(["def"] * 7 + ["lambda", "async", "gen"])
+        kind = R.rng.choice(["def"] * 7 + ["lambda", "async", "gen", "wraps", "wraps"])
         if kind == "lambda":
             ps = [[p[0], p[1], p[2], "none"] for p in ps]        # a lambda's parameters cannot be annotated
         fname = R.rng.choice(["f", "f", "g", "T0", "default0", "ret0", ps[0][0] + "_", "x9"])
@@ -159,7 +161,7 @@ def main():
             if desc == "property":
                 ps = ps[:1]
         cases.append({"params": ps, "fname": fname, "callable": kind, "descriptor": desc, "checker": R.rng.choice(["typeguard", "beartype"]), "ret_annot": kind == "def" and R.rng.random() < .5 and desc == "function", "calls": make_calls(R.rng, ps),
-                      "twin": R.rng.random() < .4})
+                      "twin": R.rng.random() < .4, "swap_defaults": kind in ("def", "wraps") and desc == "function" and R.rng.random() < .3})
     nw = 8
     chunks = [cases[i::nw] for i in range(nw)]
     from concurrent.futures import ThreadPoolExecutor
@@ -176,7 +178,7 @@ def main():
     mheaders = vf.coq_eval_strings(["model.Sig"], "fun ps => show_pieces (pieces_of_sig ps)", [sig_coq(c["params"]) for c in cases], shard=800)
     ncalls, nontriv, samples = 0, set(), []
     ident_ok = lambda n: n.isidentifier() and n not in ("lambda",)
-    gterms = ["(%s, %s, %d)" % (vf.coqstr(c["fname"] if c["callable"] != "lambda" else "<lambda>"), vf.coqlist([p[0] for p in c["params"]], vf.coqstr), len(c["params"])) for c in cases]
+    gterms = ["(%s, %s, %d)" % (vf.coqstr("<lambda>" if c["callable"] == "lambda" else "_inner" if c["callable"] == "wraps" else c["fname"]), vf.coqlist([p[0] for p in c["params"]], vf.coqstr), len(c["params"])) for c in cases]
     gdefs = ("Definition run_gen (c : string * list string * nat) : string :=\n  let '(f, ps, n) := c in\n"
              "  let nm := def_name (negb (String.eqb f \"<lambda>\")) f ps in\n"
              "  (nm ++ \"|\" ++ sep_concat \",\" (map (fun p => fst p ++ \"/\" ++ snd p) (gen_names [nm] ps n)))%string.")
@@ -218,7 +220,10 @@ def main():
             if o["welltyped"]:
                 if o["plain"][0] == "ret":
                     nontriv.add(json.dumps([c["params"], c["fname"], c["callable"], call]))
-                if not o["same_result"] or o["body_runs"][0] != o["body_runs"][1] or not o["same_args"]:
+                # a functools.wraps wrapper (*args, **kwargs) records the raw call before its inner function refuses a call that
+                # does not bind; the decorated one raises the ordinary TypeError without entering it: only the outcome is compared
+                lenient = c["callable"] == "wraps" and o["plain"] == ["exc", "TypeError"]
+                if not o["same_result"] or ((o["body_runs"][0] != o["body_runs"][1] or not o["same_args"]) and not lenient):
                     R.violation("property", "well-typed call %s: plain %s (body runs %d), decorated %s (body runs %d), same argument objects: %s (%s)" % (
                         json.dumps(call), o["plain"], o["body_runs"][0], o["wrapped"], o["body_runs"][1], o["same_args"], desc), {"case": c, "call": call, "observed": o, "source": r["src"]},
                         key=dict(keyb, kind="welltyped-differs", wrapped=str(o["wrapped"][1])))
@@ -232,7 +237,7 @@ def main():
         R.violation("proof", "proof obligations of props/C07.v no longer check: " + str(R.broken_proof)[-800:],
                     {"theorem_file": "coq/props/C07.v", "log": R.broken_proof}, no_input=not any(v["kind"] == "property" for v in R.violations))
     R.coverage.update(evaluations=ncalls, distinct_nontrivial=len(nontriv), samples=samples, signatures=len(cases),
-                      rule="%d generated signatures (positional-only / positional-or-keyword / *args / keyword-only / **kwargs, defaults, names colliding with the wrapper's generated names T<k>, default<k>, ret<k>, with the function's own name, and with every parameter/local name used inside _decorator.py (%d names read from the source, also as **kwargs keys); 40%% of the functions are decorated after a same-named twin whose defaults are None) x callable kind (def, lambda, async def, generator) x descriptor kind x typeguard/beartype; "
+                      rule="%d generated signatures (positional-only / positional-or-keyword / *args / keyword-only / **kwargs, defaults, names colliding with the wrapper's generated names T<k>, default<k>, ret<k>, with the function's own name, and with every parameter/local name used inside _decorator.py (%d names read from the source, also as **kwargs keys); 40%% of the functions are decorated after a same-named twin whose defaults are None) x callable kind (def, lambda, async def, generator, functools.wraps wrapper that records the raw call); parameters annotated with a class created per function; defaults replaced after decoration in 30%% x descriptor kind x typeguard/beartype; "
                            "per signature: positional and keyword binding calls, a call omitting defaults, an ill-typed call, a non-binding call. Oracle = the undecorated twin compiled from the same source: result object / exception class, number of body runs, ids of the received argument objects, __name__/__qualname__/__doc__/__module__/signature/iscoroutinefunction, descriptor type. "
                            "non-trivial = distinct well-typed binding call" % (len(cases), len(INTERNAL)))
     R.assumptions += ["object identity and functools.wraps are CPython's: observed, not proved"]
